@@ -180,12 +180,70 @@ def r17_9(run, model):
            witness="let d: dyn Show = P { x: 1 } emits dyn__Show{x: 1}; pr(-x) emits `var t dyn__Show = -x`; let d: dyn Show = E::A(1) panics in the Go back end")
 
 
+TOPLEVEL = "crates/compiler/src/typer/toplevel.rs"
+WRITERS = ("insert", "extend", "append", "insert_full", "entry", "push", "replace", "insert_before", "shift_insert")
+
+
+def unique_definition(run, model, rule, fn_name, tail, what, witness):
+    """every write to the name table `…<tail>` in fn_name is an insert that a rejecting `contains_key` test on the same table guards:
+    `if T.contains_key(&n) { <diagnostic>; continue|return } T.insert(n, ..)` (or the insert sits in the else branch)."""
+    f = model.fn(fn_name, TOPLEVEL)
+    text = lambda n: S.norm_ws(run.facts.text(f.file, n["sp"]))
+    is_table = lambda e: re.search(re.escape(tail) + r"$", text(e)) is not None
+    writes = [c for c in S.walk(f.body) if c["k"] == "MethodCall" and c["method"] in WRITERS and is_table(c["recv"])]
+    if not writes:
+        raise AnalysisIncomplete(f"{fn_name}: no write to `…{tail}` found")
+    guards = []
+    for iff in S.walk(f.body):
+        if iff["k"] != "If":
+            continue
+        tests = [c for c in S.walk(iff["cond"]) if c["k"] == "MethodCall" and c["method"] in ("contains_key", "contains") and is_table(c["recv"])]
+        if not tests:
+            continue
+        negated = any(u["k"] == "Unary" and u["op"] == "!" and S.span_contains(u["sp"], tests[0]["sp"]) for u in S.walk(iff["cond"]))
+        dup_branch = iff.get("else") if negated else iff["then"]
+        if dup_branch is None:
+            continue
+        reports = any(c["k"] in ("MethodCall", "Call") and (S.callee_name(c) in ("push_error", "push_ice") or (c["k"] == "MethodCall" and c["method"] == "push" and "diagnostics" in text(c["recv"])))
+                      for c in S.walk(dup_branch))
+        stmts = dup_branch.get("stmts") or []
+        last = stmts[-1] if stmts else None
+        leaves = last is not None and (last.get("expr") or last)["k"] in ("Continue", "Return")
+        guards.append((iff, negated, reports, leaves))
+    for i, w in enumerate(writes, 1):
+        ok = False
+        why = f"`.{w['method']}(` on {text(w['recv'])[-60:]} is not guarded by a rejecting contains_key test on the same table"
+        if w["method"] == "insert":
+            for iff, negated, reports, leaves in guards:
+                if not reports:
+                    continue
+                after = (w["sp"][0], w["sp"][1]) > (iff["sp"][2], iff["sp"][3]) if len(iff["sp"]) >= 4 else w["sp"][0] > iff["sp"][0]
+                other = iff["then"] if negated else iff.get("else")
+                in_other = other is not None and S.span_contains(other["sp"], w["sp"])
+                if (after and leaves) or in_other:
+                    ok = True
+                    why = "insert reached only when the name is not in the table; the duplicate branch pushes a diagnostic"
+                    break
+        run.ob(rule, f"{fn_name}|{what} write #{i} rejects an existing name", ok, site(f.file, w["sp"]), why, witness=witness)
+    return len(writes)
+
+
+def r17_10(run, model):
+    run.rule("R17.10", "a method name of a type has one definition: define_inherent_impl adds a method to the inherent table of the receiver "
+                       "type only after testing that the name is not there (a second `impl P { fn tag }` block is an error, not an overwrite)")
+    n = unique_definition(run, model, "R17.10", "define_inherent_impl", ".methods", "inherent method table",
+                          "impl P { fn tag(self: P) -> string { \"first\" } } impl P { fn tag(self: P) -> string { \"second\" } }: no diagnostic, "
+                          "p.tag() and P::tag(p) run whichever block comes last")
+    run.floor("writes to the inherent method table examined", n, 1)
+
+
 def run(run, model):
     run.try_rule(r17_1, model)
     run.try_rule(r17_2, model)
     run.try_rule(r17_3, model)
     run.try_rule(r17_4, model)
     run.try_rule(r17_9, model)
+    run.try_rule(r17_10, model)
     from rules import c01
     from lib import passes as P
     run.rule("R17.7", "every coercion to dyn gets its vtable: the collector that decides which vtable constructors and wrappers are generated "
